@@ -34,7 +34,8 @@ theorem drain_succ (fuel : Nat) (t : Tracker) (key : Nat) (added : Bool) :
             else
               drain fuel (discardState t key chunk) (cyclicSucc (discardState t key chunk).buf key) added
           else
-            drain fuel (deliverState t key chunk) (cyclicSucc (deliverState t key chunk).buf key) true
+            drain fuel (deliverState t key chunk) (cyclicSucc (deliverState t key chunk).buf key)
+              (added || !chunk.isEmpty)
         else (t, added) := by
   rfl
 
